@@ -112,11 +112,16 @@ func runC19(c *Ctx) {
 				if !ok || b == doReq.Recover {
 					continue
 				}
-				cs := p.CondsAt(b)
+				// the return taken for a status the test on StatusCode singles out (the test may sit in a
+				// predicate helper): an error return under a positive outcome of such a test
+				cs := p.withImplied(p.CondsAt(b))
 				if !hasCond(cs, func(k Cond) bool { return k.Atom.Has(func(x *Term) bool { return x.IsField("StatusCode", nil) }) }) {
 					continue
 				}
 				et := p.TermOf(RetVal(ret, 1))
+				if et.Op == "const" {
+					continue // the success return
+				}
 				switch {
 				case et.Op == "call" && et.Fn != nil && et.Fn.Pkg != nil && et.Fn.Pkg.Pkg.Path() == "errors" && et.Fn.Name() == "New":
 					built = "*errors.errorString"
